@@ -30,7 +30,7 @@ Proof. intros a k o H. unfold setitem. unfold is_open in H. rewrite H. reflexivi
 Lemma add_rejects : forall a kw, is_open a = false -> kw <> [] -> add a kw = (a, Err RuntimeError).
 Proof.
   intros a kw H Hkw. destruct kw as [|[k o] t]; [congruence|].
-  simpl. rewrite (setitem_rejects a k o H). reflexivity.
+  unfold add. simpl. rewrite (setitem_rejects a k o H). reflexivity.
 Qed.
 
 Lemma getitem_rejects : forall a k, is_thawed a = false -> getitem a k = Err RuntimeError.
@@ -124,36 +124,45 @@ Proof.
     + rewrite (node_uid_undeclared re Edr). simpl. split; discriminate.
 Qed.
 
-(* the rejected rows that do leave the archive as it was *)
-Definition clean_reject (a : archive) (key : string) (o : pyobj) : bool :=
-  smem (a_treal a) key || smem (a_tcomplex a) key ||
-  match o with
-  | PReal r => true
-  | PComplex re im => smem (a_treal a) (tag_re key) || smem (a_ureal a) (tag_re key) ||
-                      smem (a_treal a) (tag_im key) || smem (a_ureal a) (tag_im key)
-  | POther => true
-  end.
-
-Theorem setitem_reject_unchanged : forall a key o,
-  is_open a = true -> add_ok a key o = false -> clean_reject a key o = true ->
-  exists e, setitem a key o = (a, Err e) /\ (e = RuntimeError \/ (e = AttributeError /\ a_u2i a = None)).
+(* EVERY rejected _setitem leaves the archive exactly as it was (all checks precede the side
+   effects), and the exception is RuntimeError -- or AttributeError when _uid_to_intermediate
+   has been deleted *)
+Theorem setitem_atomic : forall a key o a' e,
+  setitem a key o = (a', Err e) -> a' = a /\ (e = RuntimeError \/ (e = AttributeError /\ a_u2i a = None)).
 Proof.
-  intros a key o Ho Hno Hc. unfold is_open in Ho. unfold setitem. unfold add_ok in Hno. unfold clean_reject in Hc.
-  rewrite Ho.
-  destruct (smem (a_treal a) key); simpl in *; [eauto|].
-  destruct (smem (a_tcomplex a) key); simpl in *; [eauto|].
-  destruct o as [r|re im|]; [| |eauto].
-  - destruct (smem (a_ureal a) key); simpl in *; [eauto|].
-    destruct (is_elem r); simpl in *; [discriminate|].
-    destruct (declared r) eqn:Ed; simpl in *.
-    + destruct (node_uid_declared r Ed) as [u Hu]. rewrite Hu. unfold u2i_add.
-      destruct (a_u2i a); [discriminate|]. eauto.
-    + rewrite (node_uid_undeclared r Ed). eauto.
-  - destruct (smem (a_treal a) (tag_re key)); simpl in *; [eauto|].
-    destruct (smem (a_ureal a) (tag_re key)); simpl in *; [eauto|].
-    destruct (smem (a_treal a) (tag_im key)); simpl in *; [eauto|].
-    destruct (smem (a_ureal a) (tag_im key)); simpl in *; [eauto|discriminate].
+  intros a key o a' e H. unfold setitem in H.
+  destruct (a_dump a && a_ready a); [|injection H as <- <-; auto].
+  destruct (smem (a_treal a) key || smem (a_tcomplex a) key); [injection H as <- <-; auto|].
+  destruct o as [r|re im|]; [| |injection H as <- <-; auto].
+  - destruct (smem (a_ureal a) key); [injection H as <- <-; auto|].
+    destruct (is_elem r); [discriminate|].
+    destruct (node_uid r); [|injection H as <- <-; auto].
+    unfold u2i_add in H. destruct (a_u2i a) eqn:Eu; [discriminate|]. injection H as <- <-. auto.
+  - destruct (smem (a_treal a) (tag_re key) || smem (a_ureal a) (tag_re key)); [injection H as <- <-; auto|].
+    destruct (smem (a_treal a) (tag_im key) || smem (a_ureal a) (tag_im key)); [injection H as <- <-; auto|].
+    destruct (is_elem re || is_elem im); [discriminate|].
+    destruct (node_uid re); [|injection H as <- <-; auto].
+    destruct (node_uid im); [|injection H as <- <-; auto].
+    unfold u2i_add in H. destruct (a_u2i a) eqn:Eu; simpl in H; [discriminate|]. injection H as <- <-. auto.
 Qed.
+
+(* hence Archive.add with any kwargs is all or nothing *)
+Theorem add_atomic : forall a kw a' e,
+  add a kw = (a', Err e) -> a' = a /\ (e = RuntimeError \/ e = AttributeError).
+Proof.
+  intros a kw a' e H. unfold add in H. destruct (add_loop a kw) as [a1 r] eqn:E. destruct r as [[]|e1]; [discriminate|].
+  injection H as <- <-. split; [reflexivity|].
+  revert a a1 E. induction kw as [|[k o] t IH]; intros a a1 E; simpl in E; [discriminate|].
+  destruct (setitem a k o) as [a2 r2] eqn:Es. destruct r2 as [[]|e2].
+  - eapply IH; eauto.
+  - injection E as _ <-. apply setitem_atomic in Es. destruct Es as (_ & [->|[-> _]]); auto.
+Qed.
+
+(* so a rejected add cannot spoil a later write (before the repair it could: the components of
+   a rejected undeclared complex stayed in _untagged_real and _freeze raised AttributeError) *)
+Corollary write_after_rejected_add : forall s a kw a' e f,
+  add a kw = (a', Err e) -> write s a' f = write s a f.
+Proof. intros s a kw a' e f H. apply add_atomic in H. destruct H as (-> & _). reflexivity. Qed.
 
 (* an accepted add really stores the number under its tag and touches no other tag *)
 Lemma sget_sset_same : forall V (d : list (string * V)) k v, sget (sset d k v) k = Some v.
@@ -190,47 +199,28 @@ Proof.
     repeat split; auto using sget_sset_same, sget_sset_other.
 Qed.
 
-(* ------------------------------------------------------------------ Part 2: refuted rows *)
+(* ------------------------------------------------------------------ Part 2: the formerly refuted rows, on concrete inputs *)
 Open Scope string_scope.
 Definition x_elem : robj := mkR (NLeaf (1, 1)) [(1, 1)] [] None.
 Definition p_plain : robj := mkR NNone [(1, 1)] [] None.
-
-(* add(a=ok, b=undeclared) raises RuntimeError but `a` stays in the archive *)
-Lemma add_partial_refuted :
-  exists a kw a', is_open a = true /\ add a kw = (a', Err RuntimeError) /\ a' <> a /\
-                  sget (a_treal a') "a" = Some (RLive x_elem).
-Proof.
-  exists empty_archive, [("a", PReal x_elem); ("b", PReal p_plain)].
-  eexists. split; [reflexivity|]. split; [vm_compute; reflexivity|]. split; [discriminate|reflexivity].
-Qed.
-
-(* adding an undeclared complex raises RuntimeError but leaves tag_re/tag_im in _untagged_real *)
-Lemma setitem_undeclared_complex_refuted :
-  exists a k o a', is_open a = true /\ setitem a k o = (a', Err RuntimeError) /\ a' <> a /\
-                   smem (a_ureal a') (tag_re k) = true /\ smem (a_ureal a') (tag_im k) = true.
-Proof.
-  exists empty_archive, "z", (PComplex p_plain p_plain). eexists.
-  split; [reflexivity|]. split; [vm_compute; reflexivity|]. split; [discriminate|]. split; reflexivity.
-Qed.
-
-(* ... after which the (open, non-empty) archive can no longer be written: _freeze raises
-   AttributeError, having already deleted _uid_to_intermediate, so that adding a declared
-   intermediate result raises AttributeError as well *)
 Definition ses1 : session :=
   mkSes 1 1 1 [((1, 1), mkLeaf None 16 (-1) true None None)] [(Some (1, 1), (None, 1))].
 Definition m_interm : robj := mkR (NInt (Some (1, 1)) (None, 1)) [(1, 1)] [] None.
-Lemma write_after_failed_add_refuted :
-  exists a0 a1 a2,
-    add empty_archive [("a", PReal x_elem)] = (a0, Ok tt) /\
-    setitem a0 "z" (PComplex p_plain p_plain) = (a1, Err RuntimeError) /\
-    is_open a1 = true /\ alen a1 <> 0%nat /\
-    (forall f, write ses1 a1 f = (a2, Err AttributeError)) /\ a2 <> a1 /\ is_open a2 = true /\
-    fst (setitem a2 "m" (PReal m_interm)) = a2 /\ snd (setitem a2 "m" (PReal m_interm)) = Err AttributeError.
+
+(* the three witnesses of the defects, now with the repaired outcome: add(a=ok, b=undeclared)
+   leaves nothing behind; a rejected undeclared complex leaves nothing behind; the archive is
+   then written without complaint and accepts a declared intermediate *)
+Lemma former_witnesses_repaired :
+  add empty_archive [("a", PReal x_elem); ("b", PReal p_plain)] = (empty_archive, Err RuntimeError) /\
+  setitem empty_archive "z" (PComplex p_plain p_plain) = (empty_archive, Err RuntimeError) /\
+  exists a0 a1, add empty_archive [("a", PReal x_elem)] = (a0, Ok tt) /\
+    setitem a0 "z" (PComplex p_plain p_plain) = (a0, Err RuntimeError) /\
+    (forall f, exists d, write ses1 a0 f = (a1, Ok d)) /\ is_written a1 = true /\
+    snd (setitem a0 "m" (PReal m_interm)) = Ok tt.
 Proof.
-  do 3 eexists. split; [vm_compute; reflexivity|]. split; [vm_compute; reflexivity|].
-  split; [reflexivity|]. split; [vm_compute; discriminate|].
-  split; [intros f; destruct f; vm_compute; reflexivity|].
-  split; [discriminate|]. split; [reflexivity|]. split; vm_compute; reflexivity.
+  split; [vm_compute; reflexivity|]. split; [vm_compute; reflexivity|].
+  do 2 eexists. split; [vm_compute; reflexivity|]. split; [vm_compute; reflexivity|].
+  split; [intros f; destruct f; eexists; vm_compute; reflexivity|]. split; vm_compute; reflexivity.
 Qed.
 
 (* extract() without names raises IndexError (not RuntimeError) in every state *)
@@ -658,11 +648,192 @@ Proof.
 Qed.
 
 Transparent step0.
-(* ------------------------------------------------------------------ Part 3c: reading is not pure *)
-(* y1,y2,y3 dependent; r(y1,y2)=0.5 is declared, the archive {y1,y2} is written, THEN
-   r(y1,y3)=0.25 is declared; reading the archive back in the same session assigns the archived
-   correlation dict onto the live leaf of y1: the later correlation is gone from y1's side and
-   still there on y3's side *)
+Transparent step0.
+(* ------------------------------------------------------------------ Part 3c: reading keeps what live leaves know *)
+(* [leaf_le l l']: l' is the same node (label, u, df, independent) and knows every correlation l knows *)
+Definition leaf_le (l l' : leaf) : Prop :=
+  l_label l' = l_label l /\ l_u l' = l_u l /\ l_df l' = l_df l /\ l_indep l' = l_indep l /\
+  forall c v r, l_corr l = Some c -> dget uid_eqb c v = Some r ->
+                exists c', l_corr l' = Some c' /\ dget uid_eqb c' v = Some r.
+Lemma leaf_le_refl : forall l, leaf_le l l.
+Proof. intros l. unfold leaf_le. repeat split; auto. intros c v r H1 H2. eauto. Qed.
+Lemma leaf_le_trans : forall a b c, leaf_le a b -> leaf_le b c -> leaf_le a c.
+Proof.
+  intros a b c (A1 & A2 & A3 & A4 & A5) (B1 & B2 & B3 & B4 & B5). unfold leaf_le.
+  repeat split; try congruence. intros x v r H1 H2. destruct (A5 _ _ _ H1 H2) as (c' & H3 & H4). eauto.
+Qed.
+
+Definition keeps (s s' : session) : Prop :=
+  forall u l, lget (s_leaves s) u = Some l -> exists l', lget (s_leaves s') u = Some l' /\ leaf_le l l'.
+Lemma keeps_refl : forall s, keeps s s.
+Proof. intros s u l H. exists l. split; [exact H | apply leaf_le_refl]. Qed.
+Lemma keeps_trans : forall a b c, keeps a b -> keeps b c -> keeps a c.
+Proof.
+  intros a b c H1 H2 u l H. destruct (H1 _ _ H) as (l1 & G1 & L1). destruct (H2 _ _ G1) as (l2 & G2 & L2).
+  exists l2. split; [exact G2 | eapply leaf_le_trans; eauto].
+Qed.
+Lemma keeps_same_leaves : forall s s', s_leaves s' = s_leaves s -> keeps s s'.
+Proof. intros s s' H u l G. exists l. rewrite H. split; [exact G | apply leaf_le_refl]. Qed.
+
+Lemma uid_eqb_refl : forall u, uid_eqb u u = true.
+Proof. intros u. apply uid_eqb_eq. reflexivity. Qed.
+
+Lemma lget_lset : forall d u l u', lget (lset d u l) u' = if uid_eqb u u' then Some l else lget d u'.
+Proof.
+  intros d u l u'. unfold lget, lset. induction d as [|[k v] t IH]; simpl; [reflexivity|].
+  destruct (uid_eqb k u) eqn:E; simpl.
+  - apply uid_eqb_eq in E. subst k. destruct (uid_eqb u u'); reflexivity.
+  - rewrite IH. destruct (uid_eqb k u') eqn:E2; [|reflexivity].
+    destruct (uid_eqb u u') eqn:E3; [|reflexivity].
+    apply uid_eqb_eq in E2. apply uid_eqb_eq in E3. subst. rewrite uid_eqb_refl in E. discriminate.
+Qed.
+
+Lemma dget_app_keep : forall (c : list (uid * Z)) x v r, dget uid_eqb c v = Some r -> dget uid_eqb (c ++ x) v = Some r.
+Proof.
+  induction c as [|[k w] t IH]; intros x v r H; simpl in *; [discriminate|].
+  destruct (uid_eqb k v); auto.
+Qed.
+
+Lemma corr_merge_keeps : forall arch c v r, dget uid_eqb c v = Some r -> dget uid_eqb (corr_merge c arch) v = Some r.
+Proof.
+  induction arch as [|[k w] t IH]; intros c v r H; simpl; [exact H|].
+  apply IH. destruct (dmem uid_eqb c k); [exact H | apply dget_app_keep; exact H].
+Qed.
+
+Lemma thaw_leaves_keeps : forall ln s s' r, thaw_leaves s ln = (s', r) -> keeps s s'.
+Proof.
+  induction ln as [|[u fl] t IH]; intros s s' r H; simpl in H.
+  - injection H as <- _. apply keeps_refl.
+  - unfold new_leaf in H. unfold dmem in H. fold (lget (s_leaves s) u) in H.
+    destruct (lget (s_leaves s) u) as [l0|] eqn:E0.
+    + destruct (leaf_same _ _ _ _ l0); [|injection H as <- _; apply keeps_refl].
+      apply IH in H. eapply keeps_trans; [|exact H].
+      intros u' l Hl. simpl. rewrite lget_lset. destruct (uid_eqb u u') eqn:E.
+      * apply uid_eqb_eq in E. subst u'. rewrite E0 in Hl. injection Hl as <-.
+        eexists. split; [reflexivity|]. unfold leaf_le; simpl. repeat split; auto.
+        intros c v r0 Hc Hv. rewrite Hc. unfold thaw_corr. destruct (l_corr fl) as [c'|]; eauto.
+        eexists. split; [reflexivity|]. apply corr_merge_keeps. exact Hv.
+      * exists l. split; [exact Hl | apply leaf_le_refl].
+    + apply IH in H. eapply keeps_trans; [|exact H].
+      intros u' l Hl. simpl. rewrite !lget_lset. destruct (uid_eqb u u') eqn:E.
+      * apply uid_eqb_eq in E. subst u'. congruence.
+      * exists l. split; [exact Hl | apply leaf_le_refl].
+Qed.
+
+Lemma thaw_nodes_leaves : forall iu s s' r, thaw_nodes s iu = (s', r) -> s_leaves s' = s_leaves s.
+Proof.
+  induction iu as [|[u sg] t IH]; intros s s' r H; simpl in H.
+  - injection H as <- _. reflexivity.
+  - unfold new_node in H. destruct (dget ouid_eqb (s_nodes s) u).
+    + destruct (_ && _); [|injection H as <- _; reflexivity]. apply IH in H. exact H.
+    + apply IH in H. simpl in H. exact H.
+Qed.
+
+Lemma set_complex_keeps : forall s u c, keeps s (set_complex s u c).
+Proof.
+  intros s u c. unfold set_complex. destruct (lget (s_leaves s) u) as [l0|] eqn:E0; [|apply keeps_refl].
+  intros u' l Hl. simpl. rewrite lget_lset. destruct (uid_eqb u u') eqn:E.
+  - apply uid_eqb_eq in E. subst u'. rewrite E0 in Hl. injection Hl as <-.
+    eexists. split; [reflexivity|]. unfold leaf_le; simpl. repeat split; auto. intros; eauto.
+  - exists l. split; [exact Hl | apply leaf_le_refl].
+Qed.
+
+Lemma thaw_complexes_keeps : forall iu items s a s' a' r,
+  thaw_complexes s iu a items = (s', a', r) -> keeps s s'.
+Proof.
+  induction items as [|[n v] t IH]; intros s a s' a' r H; cbn [thaw_complexes] in H.
+  - injection H as <- _ _. apply keeps_refl.
+  - destruct v as [|n_re n_im]; [injection H as <- _ _; apply keeps_refl|].
+    destruct (sget (a_ureal a) n_re); [|injection H as <- _ _; apply keeps_refl].
+    destruct (builder s iu r0) as [re|]; [|injection H as <- _ _; apply keeps_refl].
+    destruct (sget _ n_im); [|injection H as <- _ _; apply keeps_refl].
+    destruct (builder s iu r1) as [im|]; [|injection H as <- _ _; apply keeps_refl].
+    destruct (negb (Bool.eqb (is_elem re) (is_elem im))); [injection H as <- _ _; apply keeps_refl|].
+    destruct (negb (Bool.eqb (is_interm re) (is_interm im))); [injection H as <- _ _; apply keeps_refl|].
+    match type of H with context [thaw_complexes ?ss _ _ _] => set (s1 := ss) in * end.
+    assert (C1 : keeps s s1).
+    { unfold s1. destruct (r_node re); try apply keeps_refl. destruct (r_node im); try apply keeps_refl.
+      eapply keeps_trans; apply set_complex_keeps. }
+    destruct (is_interm re).
+    + destruct (node_uid re) as [o1|]; [|injection H as <- _ _; exact C1].
+      destruct (node_uid im) as [o2|]; [|injection H as <- _ _; exact C1].
+      destruct (u2i_add _ o1); [|injection H as <- _ _; exact C1].
+      destruct (u2i_add _ o2); [|injection H as <- _ _; exact C1].
+      apply IH in H. eapply keeps_trans; eauto.
+    + apply IH in H. eapply keeps_trans; eauto.
+Qed.
+
+(* what _thaw created and nothing refers to is dropped again, never a node that was registered before *)
+Lemma collect_keeps : forall s0 s kl kn, keeps s0 s -> keeps s0 (collect s0 s kl kn).
+Proof.
+  intros s0 s kl kn H u l Hl. destruct (H _ _ Hl) as (l' & G & L). exists l'. split; [|exact L].
+  unfold collect; simpl.
+  rewrite (lget_filter_kept (fun k => dmem uid_eqb (s_leaves s0) k || existsb (uid_eqb k) kl)); [exact G|].
+  unfold dmem. fold (lget (s_leaves s0) u). rewrite Hl. reflexivity.
+Qed.
+
+Theorem thaw_keeps : forall s a b s' a' r, thaw s a b = (s', a', r) -> keeps s s'.
+Proof.
+  intros s a b s' a' r H. unfold thaw in H.
+  destruct (a_dump a); [injection H as <- _ _; apply keeps_refl|].
+  destruct (a_ready a); [injection H as <- _ _; apply keeps_refl|].
+  destruct (a_leafn a) as [ln|]; [|injection H as <- _ _; apply keeps_refl].
+  destruct (a_iuids a) as [iu|]; [|injection H as <- _ _; apply keeps_refl].
+  destruct (thaw_leaves s ln) as [s1 r1] eqn:E1. apply thaw_leaves_keeps in E1.
+  destruct r1 as [[]|e1]; [|injection H as <- _ _; apply collect_keeps; exact E1].
+  destruct (thaw_nodes s1 iu) as [s2 r2] eqn:E2. apply thaw_nodes_leaves in E2.
+  assert (C2 : keeps s s2) by (eapply keeps_trans; [exact E1 | apply keeps_same_leaves; exact E2]).
+  destruct r2 as [[]|e2]; [|injection H as <- _ _; apply collect_keeps; exact C2].
+  destruct (thaw_reals s2 iu _ _) as [a2 r3].
+  destruct r3 as [[]|e3]; [|injection H as <- _ _; destruct b; apply collect_keeps; exact C2].
+  destruct (thaw_complexes s2 iu a2 _) as [[s3 a3] r4] eqn:E4. apply thaw_complexes_keeps in E4.
+  assert (C3 : keeps s s3) by (eapply keeps_trans; eauto).
+  destruct r4 as [[]|e4]; injection H as <- _ _; [exact C3 | destruct b; apply collect_keeps; exact C3].
+Qed.
+
+Lemma read_keeps : forall s d s' r, read s d = (s', r) -> keeps s s'.
+Proof.
+  intros s d s' r H. unfold read in H. destruct (thaw s (decode d) false) as [[s1 a1] r1] eqn:E.
+  apply thaw_keeps in E. destruct r1; injection H as <- _; exact E.
+Qed.
+Lemma copy_keeps : forall s a s' r, copy s a = (s', r) -> keeps s s'.
+Proof.
+  intros s a s' r H. unfold copy in H. destruct (a_ready (deepcopy s a)); [injection H as <- _; apply keeps_refl|].
+  destruct (thaw s _ false) as [[s1 a1] r1] eqn:E. apply thaw_keeps in E. destruct r1; injection H as <- _; exact E.
+Qed.
+
+(* at the level of histories: loading a document, copying an archive or thawing one, succeeding
+   or failing, never removes a leaf a live number refers to, never changes its label, u, df,
+   independent, and never removes or changes a correlation it knows *)
+Definition load_op (o : op) : bool :=
+  match o with ORead _ | OCopy _ | OThaw _ | OReadRaw _ => true | _ => false end.
+
+Lemma step0_load_keeps : forall st o, load_op o = true ->
+  keeps (st_ses st) (st_ses (fst (step0 st o))) /\ st_objs (fst (step0 st o)) = st_objs st.
+Proof.
+  intros st o Ho. destruct o; try discriminate; simpl.
+  - destruct (nth_error (st_docs st) d); [|split; [apply keeps_refl | reflexivity]].
+    destruct (read (st_ses st) d0) as [s1 r] eqn:E. apply read_keeps in E. destruct r; simpl; auto.
+  - destruct (nth_error (st_docs st) d) as [[[] a]|]; simpl; split; try apply keeps_refl; reflexivity.
+  - destruct (nth_error (st_ars st) ar); [|split; [apply keeps_refl | reflexivity]].
+    destruct (thaw (st_ses st) a true) as [[s1 a1] r] eqn:E. apply thaw_keeps in E. destruct r; simpl; auto.
+  - destruct (nth_error (st_ars st) ar); [|split; [apply keeps_refl | reflexivity]].
+    destruct (copy (st_ses st) a) as [s1 r] eqn:E. apply copy_keeps in E. destruct r; simpl; auto.
+Qed.
+
+Theorem step_load_keeps : forall st o u l,
+  load_op o = true ->
+  In u (flat_map pyobj_leaf_refs (st_objs st)) -> lget (s_leaves (st_ses st)) u = Some l ->
+  exists l', lget (s_leaves (st_ses (fst (step st o)))) u = Some l' /\ leaf_le l l'.
+Proof.
+  intros st o u l Ho Hin Hl. destruct (step0_load_keeps st o Ho) as [K Hobjs].
+  destruct (K _ _ Hl) as (l' & G & L). exists l'. split; [|exact L].
+  change (fst (step st o)) with (gc_state (fst (step0 st o))).
+  rewrite gc_keeps; [exact G|].
+  unfold leaf_refs, live_objs. rewrite flat_map_app. apply in_or_app. left. rewrite Hobjs. exact Hin.
+Qed.
+
+(* the history that used to lose a correlation (r(y1,y3) declared after the dump of {y1,y2}) *)
 Open Scope string_scope.
 Definition hist17 : list op :=
   [ODeclReal None 16 (-1) false; ODeclReal None 16 (-1) false; ODeclReal None 16 (-1) false;
@@ -673,39 +844,35 @@ Definition corr_of (st : state) (u v : uid) : option Z :=
   | Some l => match l_corr l with Some c => dget uid_eqb c v | None => None end
   | None => None
   end.
-
-Lemma read_pure_refuted :
+Lemma hist17_repaired :
   let st := run (init_state 1) hist17 in
-  let st' := fst (step st (ORead 0)) in
-  snd (step st (ORead 0)) = OutOk /\
+  snd (step st (ORead 0)) = OutOk /\ snd (step st (OCopy 0)) = OutOk /\
   corr_of st (1, 1) (1, 3) = Some 2 /\ corr_of st (1, 3) (1, 1) = Some 2 /\
-  corr_of st' (1, 1) (1, 3) = None /\ corr_of st' (1, 3) (1, 1) = Some 2.
+  corr_of (fst (step st (ORead 0))) (1, 1) (1, 3) = Some 2 /\ corr_of (fst (step st (ORead 0))) (1, 1) (1, 2) = Some 4 /\
+  corr_of (fst (step st (OCopy 0))) (1, 1) (1, 3) = Some 2 /\
+  s_leaves (st_ses (fst (step st (ORead 0)))) = s_leaves (st_ses st).
 Proof. vm_compute. repeat split; reflexivity. Qed.
 
-(* the same happens through Archive.copy of the written archive *)
-Lemma copy_pure_refuted :
-  let st := run (init_state 1) hist17 in
-  let st' := fst (step st (OCopy 0)) in
-  snd (step st (OCopy 0)) = OutOk /\
-  corr_of st (1, 1) (1, 3) = Some 2 /\ corr_of st' (1, 1) (1, 3) = None /\ corr_of st' (1, 3) (1, 1) = Some 2.
-Proof. vm_compute. repeat split; reflexivity. Qed.
+(* a JSON document is read exactly as the pickled frozen archive is: jason_to_leaf restores the
+   `complex` pairing as the tuple the other readers build (before the repair it was a list, the
+   live leaves were overwritten with it and live numbers reported another dof) *)
+Theorem read_json_as_pickle : forall s a, read s (FJson, a) = read s (FPickle, a).
+Proof.
+  intros s a. unfold read, decode, thaw. simpl.
+  destruct (a_leafn a) as [ln|]; [|reflexivity].
+  destruct (a_iuids a) as [iu|]; [|reflexivity].
+  destruct (thaw_leaves s ln) as [s1 [[]|e1]]; [|reflexivity].
+  destruct (thaw_nodes s1 iu) as [s2 [[]|e2]]; reflexivity.
+Qed.
 
-(* reading a JSON document replaces the `complex` attribute (a tuple of two uids) of LIVE leaves
-   by a list: (uid_re, uid_im) == complex_id is then False in later dof calculations, so an
-   existing number w = z*z reports another dof after the load (10.0 instead of 5.0 on GTC) *)
 Open Scope string_scope.
 Definition hist20 : list op :=
   [ODeclComplex None 16 8 5 false; OMul 0 0; OResult 1 None 1 2; OArchive; OAdd 0 [("q", 2%nat)]; OWrite 0 FJson].
 Close Scope string_scope.
-Definition cx_of (st : state) (u : uid) : option (bool * (uid * uid)) :=
-  match lget (s_leaves (st_ses st)) u with Some l => l_complex l | None => None end.
-Lemma read_json_complex_refuted :
+Lemma hist20_repaired :
   let st := run (init_state 1) hist20 in
-  let st' := fst (step st (ORead 0)) in
-  snd (step st (ORead 0)) = OutOk /\
-  cx_of st (1, 1) = Some (false, ((1, 1), (1, 2))) /\ cx_of st' (1, 1) = Some (true, ((1, 1), (1, 2))) /\
-  cx_of st (1, 2) = Some (false, ((1, 1), (1, 2))) /\ cx_of st' (1, 2) = Some (true, ((1, 1), (1, 2))).
-Proof. vm_compute. repeat split; reflexivity. Qed.
+  snd (step st (ORead 0)) = OutOk /\ st_ses (fst (step st (ORead 0))) = st_ses st.
+Proof. vm_compute. split; reflexivity. Qed.
 
 (* ------------------------------------------------------------------ Part 4: fresh uids *)
 (* loading never touches the context id or the counters ... *)
